@@ -256,6 +256,10 @@ FAMILIES = [
            quick=dict(n=2, fault_kinds=NOF, counts=[None, 1, 2], consumers=[SLOW]),
            thorough=dict(n=3, fault_kinds=NOF, counts=[None, 2], consumers=[SLOW]),
            reach=['slow-consumer'], bounds='slow consumer'),
+    Family('first_slow_failing', fam_first,
+           quick=dict(n=2, fault_kinds=NOF, counts=[None, 1], consumers=[SLOW, BREAK], failing=True),
+           reach=['failure'],
+           bounds='an activity fails while the consumer is busy with an earlier result'),
     Family('first_fault', fam_first,
            quick=dict(n=2, fault_kinds=ALLF, counts=[None, 1], consumers=[PROMPT]),
            thorough=dict(n=3, fault_kinds=ALLF, counts=[None, 1, 2], consumers=[PROMPT, SLOW]),
